@@ -30,7 +30,7 @@ func (k Keeper) GetFeederDelegations(ctx sdk.Context) []types.FeederDelegation {
 	defer iterator.Close()
 	for ; iterator.Valid(); iterator.Next() {
 		validatorAddr := string(iterator.Key()[1:])
-		feederAddr := string(iterator.Value())
+		feederAddr := sdk.AccAddress(iterator.Value()).String()
 		feederDelegations = append(feederDelegations, types.FeederDelegation{
 			ValidatorAddress: validatorAddr,
 			FeederAddress:    feederAddr,
